@@ -19,6 +19,7 @@ import (
 	"go/token"
 	"go/types"
 	"math"
+	"strings"
 
 	"golang.org/x/tools/go/ssa"
 )
@@ -171,6 +172,7 @@ type Bounds struct {
 	zones   map[*ssa.BasicBlock]*Zone
 	// Opaque records values whose arithmetic may wrap in a narrow type (reported by rule R2).
 	Opaque map[ssa.Value]string
+	stable [][]ssa.Value
 }
 
 func NewBounds(fn *ssa.Function, intBits int) *Bounds {
@@ -363,6 +365,18 @@ func (b *Bounds) zoneAt(blk *ssa.BasicBlock) *Zone {
 				if xt, off, ok := lin(t.Len); ok {
 					z.addEq(lt, xt, off)
 				}
+			}
+		}
+	}
+	// 1b. go/ssa does no CSE: two loads of the same field of the same object are different values.
+	// They are unified when the field is stable in this function (see stableFieldLoads).
+	for _, grp := range b.stableFieldLoads() {
+		for i := 1; i < len(grp); i++ {
+			if lt, _, ok := lenTerm(grp[0]); ok && lt != zero {
+				l2, _, _ := lenTerm(grp[i])
+				z.addEq(lt, l2, 0)
+			} else if isIntVal(grp[0]) {
+				z.addEq(Term{V: grp[0]}, Term{V: grp[i]}, 0)
 			}
 		}
 	}
@@ -1153,4 +1167,121 @@ func (b *Bounds) ProveLenGE(blk *ssa.BasicBlock, v ssa.Value, k int64) bool {
 		return false
 	}
 	return z.le(zero, lt, off-k)
+}
+
+// stableFieldLoads returns pairs (as 2-element groups) of loads `*(&x.f)` of fn on the same object
+// and field that must yield the same value: the first dominates the second and no writer of the
+// field can execute between them. Writers are stores to a field f of that struct type in fn, and
+// static calls to module functions that (transitively, depth 3) contain such a store. Calls through
+// interfaces and function values are assumed not to write the fields of the object being read
+// (logging, formatting, library calls); the rules that rely on this state it in their evidence.
+func (b *Bounds) stableFieldLoads() [][]ssa.Value {
+	if b.stable != nil {
+		return b.stable
+	}
+	type key struct {
+		x ssa.Value
+		f int
+	}
+	writesMemo := map[*ssa.Function]map[string]bool{}
+	var writesOf func(fn *ssa.Function, depth int) map[string]bool
+	writesOf = func(fn *ssa.Function, depth int) map[string]bool {
+		if m, ok := writesMemo[fn]; ok {
+			return m
+		}
+		m := map[string]bool{}
+		writesMemo[fn] = m
+		if fn == nil || depth > 3 || len(fn.Blocks) == 0 {
+			return m
+		}
+		for _, blk := range fn.Blocks {
+			for _, in := range blk.Instrs {
+				switch t := in.(type) {
+				case *ssa.Store:
+					if tn, f, ok := FieldOfAddr(t.Addr); ok {
+						m[tn+"."+f] = true
+					}
+				case ssa.CallInstruction:
+					if c := StaticCallee(t); c != nil && c.Pkg != nil && strings.HasPrefix(c.Pkg.Pkg.Path(), ModPath) {
+						for k := range writesOf(c, depth+1) {
+							m[k] = true
+						}
+					}
+				}
+			}
+		}
+		return m
+	}
+	// writers in fn per field key
+	writers := map[string][]ssa.Instruction{}
+	for _, blk := range b.Fn.Blocks {
+		for _, in := range blk.Instrs {
+			switch t := in.(type) {
+			case *ssa.Store:
+				if tn, f, ok := FieldOfAddr(t.Addr); ok {
+					writers[tn+"."+f] = append(writers[tn+"."+f], in)
+				}
+			case ssa.CallInstruction:
+				if c := StaticCallee(t); c != nil && c != b.Fn && c.Pkg != nil && strings.HasPrefix(c.Pkg.Pkg.Path(), ModPath) {
+					for k := range writesOf(c, 1) {
+						writers[k] = append(writers[k], in)
+					}
+				}
+			}
+		}
+	}
+	groups := map[key][]*ssa.UnOp{}
+	fkey := map[key]string{}
+	var order []key
+	for _, blk := range b.Fn.Blocks {
+		for _, in := range blk.Instrs {
+			u, ok := in.(*ssa.UnOp)
+			if !ok || u.Op != token.MUL {
+				continue
+			}
+			fa, ok := u.X.(*ssa.FieldAddr)
+			if !ok {
+				continue
+			}
+			tn, f, ok := FieldOfAddr(fa)
+			if !ok {
+				continue
+			}
+			k := key{fa.X, fa.Field}
+			if _, seen := groups[k]; !seen {
+				order = append(order, k)
+			}
+			groups[k] = append(groups[k], u)
+			fkey[k] = tn + "." + f
+		}
+	}
+	b.stable = [][]ssa.Value{}
+	for _, k := range order {
+		g := groups[k]
+		if len(g) < 2 {
+			continue
+		}
+		ws := writers[fkey[k]]
+		for i := 0; i < len(g); i++ {
+			for j := 0; j < len(g); j++ {
+				if i == j || !InstrDominates(g[i], g[j]) {
+					continue
+				}
+				clean := true
+				for _, wi := range ws {
+					if in, _ := Reach(After(g[i]), IsInstr(wi), nil); in == nil {
+						continue
+					}
+					if in, _ := Reach(After(wi), IsInstr(g[j]), nil); in != nil {
+						clean = false
+						break
+					}
+				}
+				if clean {
+					b.stable = append(b.stable, []ssa.Value{g[i], g[j]})
+				}
+			}
+		}
+	}
+	return b.stable
 }
